@@ -5,52 +5,71 @@ PROP = dict(
         ns='IcyVerif.C08',
         theorems=['stack_discipline', 'stack_discipline_fresh', 'api_history_discipline', 'call_steps_good', 'inverse_law', 'new_edit_clears_redo',
                   'begin_atomic_clears_redo', 'atomic_group_folds', 'atomic_group_empty', 'atomic_group_undoable',
-                  'inverse_setChar_partial', 'inverse_swapChar_partial', 'inverse_addLayer', 'inverse_removeLayer',
+                  'inverse_setChar', 'inverse_setChar_mirror_centre', 'inverse_swapChar', 'inverse_addLayer', 'inverse_removeLayer',
                   'inverse_raiseLayer', 'inverse_lowerLayer', 'inverse_toggleVisibility', 'inverse_moveLayer',
                   'inverse_setLayerSize', 'inverse_resizeBuffer', 'inverse_deleteRow', 'inverse_insertRow', 'inverse_deleteColumn',
-                  'inverse_insertColumn', 'inverse_scrollUp', 'inverse_scrollDown', 'inverse_layerChange_wholesale_partial', 'inverse_clearLayer', 'inverse_crop',
-                  'inverse_setSelection', 'inverse_selectNothing', 'inverse_deselect'],
+                  'inverse_insertColumn', 'inverse_scrollUp', 'inverse_scrollDown', 'inverse_layerChange', 'inverse_clearLayer', 'inverse_crop',
+                  'inverse_setSelection', 'inverse_selectNothing', 'inverse_deselect', 'inverse_setSelectionMask',
+                  'inverse_addSelectionToMask', 'inverse_inverseSelection', 'inverse_mergeLayerDown', 'inverse_paste',
+                  'inverse_addFloatingLayer', 'inverse_rotateLayer', 'inverse_updateLayerProps', 'inverse_switchToFontPage',
+                  'inverse_setFont', 'inverse_addFont', 'inverse_removeFont', 'inverse_changeFontSlot', 'inverse_replaceFontUsage',
+                  'inverse_switchPalettte', 'inverse_setSauceData', 'inverse_setIceMode', 'inverse_switchPalette',
+                  'inverse_reverseCaret', 'inverse_reversed'],
         harness='c08',
         design='DESIGN.md §4 C08, Appendix B',
         technique='Lean 4 proof: (1) framework theorem stack_discipline by induction over the history with both stacks '
                   '(invariant: each stack is a chain of records linked to the document classes below/above them; links are '
                   'closed under undo/redo from ANY observationally equal document, so self-mutating records are covered; '
                   'atomic groups compose links, guards nest), fully general over histories incl. interleaved undo/redo; '
-                  '(2) the per-record inverse law inverse_<record> at every document (hidden rows, locked/hidden layers, '
-                  'out-of-range indices) for the records listed; (3) api_history_discipline: the end-to-end statement for every '
-                  'history over 27 public operations whose step lists (Call.steps) are executed by the driver through the very '
-                  'function the theorem is about; over an executable model of EditState transcribed from '
-                  'src/editor/*.rs and src/layer.rs whose constants and record inventory are regenerated from the source. '
+                  '(2) the per-record inverse law inverse_<record> at every document (hidden rows, locked/hidden/alpha-locked '
+                  'layers, out-of-range indices, any font table) for ALL 43 record types of the model; for UndoLayerChange the law is '
+                  'proved from closed forms of Layer::from_layer and Layer::stamp (induction over the nested loops) plus a frame '
+                  'property (the edit stays inside its snapshot area) proved for each of the 12 operations that build the record; '
+                  '(3) api_history_discipline: the end-to-end statement for every history over the 66 operations of Call (every public editing operation except paste_sixel) whose step '
+                  'lists (Call.steps) are executed by the driver through the very function the theorem is about; over an '
+                  'executable model of EditState transcribed from src/editor/*.rs, src/layer.rs, src/selection_mask.rs, '
+                  'src/overlay_mask.rs whose constants, tables and record inventory are regenerated from the source. '
                   'Tie: differential run of the real EditState against the model after every step of seeded and exhaustive '
                   'short histories. Oracle (independent of the model): after EVERY undo/redo step of the history and of the '
                   'appended undo-all/redo-all/undo/new-edit tail the real document must equal the snapshot recorded on the way '
                   'forward, undo/redo must not fail or panic, a new edit must empty the redo stack.',
-        rule='cases: exhaustive histories of length 2 (quick) / 3 (thorough) over a 51-op alphabet with boundary parameters on '
-             '3 documents; seeded histories of length 1..40 over the 35 modelled operations (model tie + oracle) and over all 80 '
-             'public operations incl. fonts/palette/SAUCE/paste (oracle) on documents with 1..3 layers (alpha, offset, hidden, '
-             'locked, position-locked, alpha-locked, hidden content, unmaterialised rows); edits that return Err or panic are '
+        rule='cases: exhaustive histories of length 2 (quick) / 3 (thorough) over a reduced alphabet with boundary parameters on '
+             'fixed documents; seeded histories of length 1..40 over all public operations (model tie + oracle) on documents with '
+             '1..3 layers (alpha, offset incl. negative / partly outside the buffer, hidden, locked, position-locked, alpha-locked, '
+             'hidden content, unmaterialised rows, empty layers), all four font modes; edits that return Err or panic are '
              'dropped from the history (the property quantifies over successful edits) and sent to the model as must-fail '
-             'cases; distinct_nontrivial = distinct sanitised (document, history) pairs; failures are minimised (ops, then '
+             'cases; histories containing a step outside the model (flips with a font that has mirror pairs, Shape::Lines '
+             'selections added to the mask, replace_font_usage of a default font page, paste_sixel) are checked by the oracle '
+             'only; distinct_nontrivial = distinct sanitised (document, history) pairs; failures are minimised (ops, then '
              'document) and keyed <record type of the first deviating undo/redo step>:<kind>:<layer-state features without '
              'which the minimised failure disappears>',
-        modelled='EditState stacks: push_undo_action, push_plain_undo, begin_atomic_undo / AtomicUndoGuard drop (nesting), '
-                 'UndoState::undo/redo; records AtomicUndo, UndoSetChar, UndoSwapChar, AddLayer, RemoveLayer, RaiseLayer, '
-                 'LowerLayer, ToggleLayerVisibility, MoveLayer, SetLayerSize, ResizeBuffer, UndoLayerChange, Crop, DeleteRow, '
-                 'InsertRow, DeleteColumn, InsertColumn, UndoScrollWholeLayerUp/Down, ClearLayer, SetSelection, SelectNothing, '
-                 'Deselect; operations set_char (+mirror), swap_char, add_new_layer, remove/raise/lower/duplicate/clear_layer, '
-                 'toggle_layer_visibility, move_layer, set_layer_size, resize_buffer (both), crop, crop_rect, delete/insert '
-                 'row/column, set_selection, clear_selection, deselect, flip_x, flip_y, make_layer_transparent, whole-layer '
-                 'scroll_area_up/down; Layer::get_char/set_char/swap_char/from_layer/stamp/set_offset; document state = '
-                 'buffer size + per layer size, offset, lock/visibility/alpha flags and every stored cell incl. hidden rows',
-        not_modelled='covered by correspondence/oracle only (in the model and tied, no full inverse_ lemma): UndoLayerChange '
-                     'beyond inverse_layerChange_wholesale_partial (stamp branch; from_layer snapshots with hidden content — false '
-                     'on the pinned tree, see known_findings), UndoSetChar/UndoSwapChar on alpha-locked layers (false, see '
-                     'known_findings), mirrored set_char on the centre column (the two records are only correct as a group), '
-                     'flip_x/flip_y/make_layer_transparent as operations; covered by the oracle only (not in the model): '
-                     'MergeLayerDown/anchor_layer, Paste, AddFloatingLayer, RotateLayer, stamp_layer_down, justify/center/erase/'
-                     'partial scroll area operations, selection mask records (AddSelectionToMask, InverseSelection, '
-                     'SetSelectionMask), UpdateLayerProperties, ReverseCaretPosition, ReversedUndo, palette/ice/font/SAUCE '
-                     'records, layer title/role/mode/colour/default_font_page, sixels, hyperlinks; flip tables (the model '
-                     'documents only use characters without a mirror glyph)',
+        modelled='EditState stacks: push_undo_action, push_plain_undo, begin_atomic_undo / AtomicUndoGuard drop and end() (nesting), '
+                 'UndoState::undo/redo; ALL record types of undo_operations.rs except ClearLayerOperation (never constructed): AtomicUndo, '
+                 'UndoSetChar, UndoSwapChar, AddLayer, RemoveLayer, RaiseLayer, LowerLayer, MergeLayerDown, ToggleLayerVisibility, '
+                 'MoveLayer, SetLayerSize, Paste, AddFloatingLayer, ResizeBuffer, UndoLayerChange, Crop, DeleteRow, InsertRow, '
+                 'DeleteColumn, InsertColumn, UndoScrollWholeLayerUp/Down, RotateLayer, ReversedUndo, ReverseCaretPosition, '
+                 'ClearLayer, Deselect, SelectNothing, SetSelection, SetSelectionMask, AddSelectionToMask, InverseSelection, '
+                 'SwitchPalettte, SetSauceData, SwitchToFontPage, SetFont, AddFont, SwitchPalette, SetIceMode, ReplaceFontUsage, '
+                 'RemoveFont, ChangeFontSlot, UpdateLayerProperties; operations set_char (+mirror mode), swap_char, add_new_layer, '
+                 'remove/raise/lower/duplicate/clear/merge_down/anchor/rotate/stamp_down layer, toggle_layer_visibility, move_layer, '
+                 'set_layer_size, update_layer_properties, paste_clipboard_data, add_floating_layer, resize_buffer (both), crop, '
+                 'crop_rect, delete/insert row/column, set_selection, clear_selection, deselect, add_selection_to_mask, '
+                 'inverse_selection, erase_selection, erase_row/column (+_to_start/_to_end), flip_x, flip_y, justify_left/right, '
+                 'center, justify_line_left/right, center_line, scroll_area_up/down/left/right (whole-layer and partial), '
+                 'make_layer_transparent, switch_to_font_page, set_font/set_ansi_font/set_sauce_font, add_font/add_ansi_font, '
+                 'replace_font_usage, change_font_slot, remove_font, set_ice_mode, set_palette_mode, switch_to_palette, update_sauce_data, '
+                 'undo_caret_position, push_reverse_undo, enumerate_selections, get_clipboard_data + paste; Layer::get_char/set_char/restore_char/swap_char/from_layer/stamp/'
+                 'set_offset/from_clipboard_data, SelectionMask/OverlayMask; document state = buffer size, font table (slot -> font '
+                 'identity), font/palette/ice mode, palette, SAUCE identity + per layer size, offset, title, role, lock/visibility/'
+                 'alpha flags and every stored cell incl. hidden rows',
+        not_modelled='in the model and tied, record law proved, but part of the computation of the operation is not interpreted '
+                     '(histories that reach it are checked by the oracle only): flip tables of fonts that have mirror pairs '
+                     '(flip_x/flip_y are modelled for fonts without such pairs), AddSelectionToMask with Shape::Lines selections, '
+                     'replace_font_usage / change_font_slot / remove_font when a layer\'s default_font_page is the replaced page, '
+                     'make_solid_color (cells with TRANSPARENT_COLOR) in merge_layer_down; not in the model at all: paste_sixel and '
+                     'sixels (Layer::set_char drops a sixel it writes over and no record brings it back — sixels are not in the '
+                     'document state the property lists, so this is not reported), hyperlinks, layer mode/colour/transparency, '
+                     'preview offsets, the caret attribute changed by set_ice_mode, glyph data of fonts (a font is an identity), '
+                     'SAUCE fields (an identity), palette title; the closures given to enumerate_selections are the two of the harness',
         harness_timeout=3000,
     )
